@@ -1297,6 +1297,25 @@ class NLargest(ReductionConstantDim):
             return {}
         return {"columns": self._columns}
 
+    def _simplify_up(self, parent, dependents):
+        if isinstance(parent, Projection):
+            if self._columns is None or self.frame.ndim < 2:
+                return plain_column_projection(self, parent, dependents)
+            # The columns we sort by have to survive the projection
+            by = self._columns if isinstance(self._columns, list) else [self._columns]
+            columns = determine_column_projection(
+                self, parent, dependents, additional_columns=by
+            )
+            if not isinstance(columns, list):
+                columns = [columns]
+            columns = [col for col in self.frame.columns if col in columns]
+            if columns == self.frame.columns:
+                return
+            return type(parent)(
+                type(self)(self.frame[columns], *self.operands[1:]),
+                parent.operand("columns"),
+            )
+
     @property
     def chunk_kwargs(self):
         return {"n": self.n, **self._columns_kwarg()}
